@@ -404,7 +404,10 @@ func init() {
 						}
 						if p.destArg(site, d) == nil {
 							if isCall(site, "context.Context.Err") {
-								continue // polling cancellation is not part of evaluation; C12.R3 places it
+								// a cancellation that is noticed after the write must not turn into an error either
+								if call, ok := site.(*ssa.Call); !ok || !errReaches(call, map[ssa.Value]bool{}) {
+									continue
+								}
 							}
 							bad = fmt.Sprintf("fallible call %s may run after the destination was written by %s", calleeName(cc), calleeName(w.Common()))
 							badPos = site
